@@ -183,6 +183,12 @@ def jobs(tier):
     for (a, b) in ((2, 1), (1, 2)):
         out.append(dict(name='consumer-antijoin/%dx%d/M' % (a, b), module='props.c06', func='antijoin_op',
                         params=dict(NL=a, NR=b, dom='M'), budget=240 if q else 900))
+    # consumers: sort() with and without chunk files on mixed-type keys (harness of C05)
+    for dom in ('M', 'X'):
+        for bs in (None, 1):
+            out.append(dict(name='consumer-sort/%s/bs=%s' % (dom, bs), module='props.c05', func='sort_cfg',
+                            params=dict(N=3 if dom == 'M' or bs is None else 2, keyform='single', dom=dom, ragged=False, bs=bs,
+                                        reverse=False, cache=True), budget=240 if q else 900))
     out.append(dict(name='selectors/M', func='selector_consumer', params=dict(N=2 if q else 3, dom='M'),
                     budget=240 if q else 900))
     return out
